@@ -106,7 +106,8 @@ def xml2json():
     schema_class = XMLSchema if args.version == '1.0' else XMLSchema11
     converter = get_converter(args.converter)
     if args.schema is not None:
-        schema = schema_class(args.schema, locations=args.locations, loglevel=loglevel)
+        schema = schema_class(args.schema, locations=args.locations,
+                              loglevel=loglevel, defuse=args.defuse)
     else:
         schema = None
 
